@@ -17,8 +17,8 @@ import common  # noqa: E402
 import ctlcmds  # noqa: E402
 
 CLASSES = ["TaskPool", "SimpleTaskPool", "SubPool"]
-WIDTHS_Q = [1, 20, 80, 500]
-WIDTHS_T = [1, 10, 20, 40, 80, 120, 500]
+WIDTHS_Q = [1, 20, 80, 500, None]       # None: the handshake leaves the width to the server (JSON null)
+WIDTHS_T = [1, 10, 20, 40, 80, 120, 500, None]
 
 
 def _pool_class(name):
